@@ -299,6 +299,20 @@ def pair_list():
         a = lib([decl(F1), decl(inline)])
         b = lib([decl(F1), decl(plain, **kw)])
         pairs.append(("attrs-syntax:" + tag, a, [], b, [], False, None))
+    # one attrs / fattrs / options mapping written once and used by several declarations (a YAML anchor and its
+    # aliases: the loader hands the same object to each of them) vs. the attributes written inline on each
+    shared_attrs = {"x": {"intent": "in", "rank": 1}, "n": {"value": True}}
+    shared_fattrs = {"dimension": 10}
+    shared_opts = {"F_force_wrapper": True}
+    a = lib([decl("double h1(double *x +intent(in)+rank(1), int n +value)", options={"F_force_wrapper": True}),
+             decl("double h2(double *x +intent(in)+rank(1), int n +value)", options={"F_force_wrapper": True}),
+             decl("double h3(double *x +intent(in)+rank(1), int n +value)"),
+             decl("int *g6(int n) +dimension(10)"), decl("int *g7(int n) +dimension(10)")])
+    b = lib([decl("double h1(double *x, int n)", attrs=shared_attrs, options=shared_opts),
+             decl("double h2(double *x, int n)", attrs=shared_attrs, options=shared_opts),
+             decl("double h3(double *x, int n)", attrs=shared_attrs),
+             decl("int *g6(int n)", fattrs=shared_fattrs), decl("int *g7(int n)", fattrs=shared_fattrs)])
+    pairs.append(("attrs-syntax:shared-mapping", a, [], b, [], False, None))
     # a constructor renamed inline / under fattrs
     a = lib([{"decl": "class Widget", "declarations": [decl("Widget() +name(create)"), decl("~Widget() +name(destroy)"), decl("int size() const")]}])
     b = lib([{"decl": "class Widget", "declarations": [decl("Widget()", fattrs={"name": "create"}), decl("~Widget()", fattrs={"name": "destroy"}),
